@@ -961,6 +961,76 @@ def literal_value(node: ast.AST) -> bool:
         raise ValueError(f"Cannot find a deterministic value: {error!r}") from error
 
 
+# Values with more bits / items than this are not computed at formatting time
+_MAX_EVALUATED_SIZE = 1 << 12
+
+
+def _evaluated_size(value) -> int:
+    if isinstance(value, bool):
+        return 1
+    if isinstance(value, int):
+        return value.bit_length()
+    if isinstance(value, (str, bytes, bytearray, tuple, list, set, frozenset, dict, range)):
+        return len(value)
+    return 1
+
+
+def _check_operation_cost(op: ast.AST, left, right) -> None:
+    """Refuse, like the constant folder of the interpreter does, to compute very large values.
+
+    9 ** 9 ** 9, 1 << 10 ** 10 or "a" * 10 ** 10 would keep the formatter busy for ever."""
+    if isinstance(op, ast.Pow) and isinstance(left, int) and isinstance(right, int) and right > 0:
+        size = left.bit_length() * right
+    elif isinstance(op, ast.LShift) and isinstance(left, int) and isinstance(right, int):
+        size = left.bit_length() + max(right, 0)
+    elif isinstance(op, ast.Mult) and isinstance(left, int) and isinstance(right, int):
+        size = left.bit_length() + right.bit_length()
+    elif isinstance(op, ast.Mult) and isinstance(right, int):
+        size = _evaluated_size(left) * max(right, 0)
+    elif isinstance(op, ast.Mult) and isinstance(left, int):
+        size = _evaluated_size(right) * max(left, 0)
+    elif isinstance(op, ast.Mod) and isinstance(left, (str, bytes)):
+        values = right if isinstance(right, tuple) else (right,)
+        size = _format_size(left, values)
+    else:
+        size = 0
+    if size > _MAX_EVALUATED_SIZE:
+        raise ValueError("Cannot find a deterministic value: the value is too large to compute")
+
+
+def _format_size(template, values: Sequence) -> int:
+    """Upper bound of the widths a format string (of either style) may ask for."""
+    if isinstance(template, bytes):
+        template = template.decode("latin-1")
+    if not isinstance(template, str):
+        return 0
+    widths = [int(width) for width in re.findall(r"\d+", template)]
+    if "*" in template or "{" in template:
+        widths.extend(abs(value) for value in values if type(value) is int)
+    return max(widths, default=0)
+
+
+# Callables that take a width, a count or an exponent
+_SIZE_ARGUMENT_CALLABLES = frozenset({
+    "bytes", "bytearray", "pow", "zfill", "center", "ljust", "rjust", "expandtabs", "to_bytes",
+    "__mul__", "__rmul__", "__pow__", "__rpow__", "__lshift__", "__rlshift__",
+})  # fmt: skip
+
+
+def _check_call_cost(name: str, args: Sequence, receiver=None) -> None:
+    """Refuse to call a function with a very large argument (sum(range(10 ** 10)), bytes(10 ** 10), ...)."""
+    if any(_evaluated_size(arg) > _MAX_EVALUATED_SIZE for arg in args):
+        raise ValueError("Cannot find a deterministic value: an argument is too large")
+    if name in {"format", "format_map", "__format__", "__mod__", "__rmod__"}:
+        templates = [value for value in (receiver, *args) if isinstance(value, (str, bytes))]
+        if any(_format_size(value, args) > _MAX_EVALUATED_SIZE for value in templates):
+            raise ValueError("Cannot find a deterministic value: a field is too wide")
+    if name in _SIZE_ARGUMENT_CALLABLES and any(
+        type(arg) is int and abs(arg) > _MAX_EVALUATED_SIZE for arg in args
+    ):
+        raise ValueError("Cannot find a deterministic value: an argument is too large")
+
+
 def _literal_value(node: ast.AST) -> bool:
     if has_side_effect(node, safe_callable_whitelist=constants.SAFE_CALLABLES):
         raise ValueError("Cannot find a deterministic value for a node with a side effect")
@@ -970,6 +1040,7 @@ def _literal_value(node: ast.AST) -> bool:
     ):
         left = literal_value(node.left)
         right = literal_value(node.right)
+        _check_operation_cost(node.op, left, right)
         return constants.COMPARISON_OPERATORS[type(node.op)](left, right)
 
     if match_template(node, ast.Compare(left=object, ops={object}, comparators={object})):
@@ -1009,6 +1080,7 @@ def _literal_value(node: ast.AST) -> bool:
     if match_template(node, ast.Call(func=ast.Attribute(value=ast.Constant), keywords=[])):
         node_value = literal_value(node.func.value)
         args = [literal_value(arg) for arg in node.args]
+        _check_call_cost(node.func.attr, args, node_value)
         return getattr(node_value, node.func.attr)(*args)
 
     if isinstance(node, ast.Call):
@@ -1016,6 +1088,7 @@ def _literal_value(node: ast.AST) -> bool:
             if node.keywords:
                 raise ValueError("Cannot find a deterministic value for a call with keyword arguments")
             args = [literal_value(arg) for arg in node.args]
+            _check_call_cost(node.func.id, args)
             return getattr(builtins, node.func.id)(*args)
 
     return ast.literal_eval(node)
